@@ -111,6 +111,7 @@ structure Conf where
   gc : Bool := false
   skew : Bool := false
   del : Bool := false
+  obs : Int := 3600000
 
 def parseConf (s : String) : Conf :=
   (s.splitOn ",").foldl (fun c kv =>
@@ -123,9 +124,10 @@ def parseConf (s : String) : Conf :=
     | ["gc", v] => { c with gc := v == "1" }
     | ["skew", v] => { c with skew := v == "1" }
     | ["del", v] => { c with del := v == "1" }
+    | ["obs", v] => { c with obs := v.toInt?.getD 3600000 }
     | _ => c) {}
 
-def Conf.cfg (c : Conf) : Cfg := { lit := c.lit, ni := c.ni, lim := transmitLimit c.mult c.n }
+def Conf.cfg (c : Conf) : Cfg := { lit := c.lit, ni := c.ni, lim := transmitLimit c.mult c.n, obs := c.obs }
 
 /-! ### replay on the model -/
 
@@ -172,7 +174,9 @@ def parseWLogs (s : String) : List (Nat × Bool × List (String × String)) :=
     | [id, live, calls] =>
       let cs := if calls == "-" then [] else (calls.splitOn "&").filterMap fun c =>
         match c.splitOn "$" with
-        | [k, v] => some (k, v)
+        -- a callback that runs after cleanupObsoleteEntries removed the key reads no value; whether the callback
+        -- of Delete's notification runs before or after the cleanup is scheduling, not history: not compared
+        | [k, v] => if v == "nil" then none else some (k, v)
         | _ => none
       id.toNat?.map fun i => (i, live == "1", cs)
     | _ => none
@@ -286,6 +290,19 @@ def step (s : Sim) (wl : WLast) (ev ob : String) : Sim × WLast × Option String
         (s.setNode n nd', wl, if showSnap nd' == snap then none else some (showSnap nd'))
       | _, _ => (s, wl, some "bad-del-event")
     else (s, wl, some "unknown-event")
+  | ["inj", n, _], [tn, content, snap] =>
+    match n.toNat?, tn.toInt?, parseMsg content with
+    | some n, some tn, some msg =>
+      let nd' := notifyMsg cfg tn (s.node n) msg
+      (s.setNode n nd', wl, if showSnap (drainW nd') == snap then none else some (showSnap (drainW nd')))
+    | _, _, _ => (s, wl, some "bad-inj-event")
+  | ["co", n], [tn, snap] =>
+    match n.toNat?, tn.toInt? with
+    | some n, some tn =>
+      -- the clock reading is taken after the call: every key deleted before is at least that old
+      let nd' := cleanupObsolete cfg ((tn + 1) * 1000) (s.node n)
+      (s.setNode n nd', wl, if showSnap nd' == snap then none else some (showSnap nd'))
+    | _, _ => (s, wl, some "bad-co-event")
   | ["rs", n], [_] =>
     match n.toNat? with
     | some n => (s.setNode n {}, wl, none)
@@ -315,6 +332,25 @@ def forgedEvent (ev ob : String) : Bool :=
   | ["ppx", _, _, mode, _], [_, pairs, _, _, _] => mode != "trunc" && (pairs.splitOn "|").any (·.startsWith "ok:")
   | _, _ => false
 
+/-- `Desc.Clone` copies the instance map but shares the token slices, and `normalizeIngestersMap` sorts the
+incoming value's token slices in place: a CAS on a node whose STORED value holds an unsorted token list (only
+possible after an ill-formed first message from a faulty sender) re-orders the stored list through the alias,
+with no version change. The model has values, not slices: from such a CAS on the history is
+correspondence-free (reported in the tags). -/
+def aliasedCas (s : Sim) (ev : String) : Bool :=
+  match ev.splitOn "!" with
+  | ["cas", n, key, _] =>
+    match n.toNat? with
+    | some n =>
+      match getE (s.node n).store key with
+      | some en =>
+        match en.val with
+        | .ring d => d.any fun i => i.state != .LEFT && !C03.sortedStrict i.tokens
+        | _ => false
+      | none => false
+    | none => false
+  | _ => false
+
 /-- replay on the model. Content decoded from corrupted bytes is taken from the implementation's own
 decoder (key, codec, deleted flag, update time, value as the harness read them back with the same
 proto / codec calls); should the canonical line form still miss something of such a message, the
@@ -325,7 +361,7 @@ def replay (conf : Conf) (evs obs : List String) : Sim × Option String := Id.ru
   let mut i := 0
   let mut forged := false
   for (ev, ob) in evs.zip obs do
-    if forgedEvent ev ob then forged := true
+    if forgedEvent ev ob || aliasedCas s ev then forged := true
     let (s', wl', d) := step s wl ev ob
     s := s'
     wl := wl'
@@ -365,6 +401,9 @@ structure JState where
   wl : WLast := []
   nextW : Nat := 0
   forged : Bool := false
+  injected : Bool := false   -- an ill-formed first message was injected: senders are not correct replicas
+  lastStore : List (Nat × Store Val) := []   -- last observed store per node
+  t0 : Option Int := none                    -- clock reading of the first event
 
 /-- keys a store section marks as deleted (light parse: `key=version^deleted^...`) -/
 def deletedKeysOf (snap : String) : List String :=
@@ -374,6 +413,19 @@ def deletedKeysOf (snap : String) : List String :=
     match en.splitOn "=" with
     | [k, rest] => if ((rest.splitOn "^").getD 1 "0") == "1" then some k else none
     | _ => none
+
+/-- which node's snapshot an event's observation carries -/
+def snapOf (e o : List String) : Option (Nat × String) :=
+  match e, o with
+  | ["cas", n, _, _], [_, _, _, snap] => n.toNat?.map (·, snap)
+  | ["d", n, _], [_, snap] => n.toNat?.map (·, snap)
+  | ["x", n, _, _, _], [_, _, _, _, after] => n.toNat?.map (·, after)
+  | ["pp", _, b], [_, _, _, snapB] => b.toNat?.map (·, snapB)
+  | ["ppx", _, b, _, _], [_, _, _, snapB, _] => b.toNat?.map (·, snapB)
+  | ["inj", n, _], [_, _, snap] => n.toNat?.map (·, snap)
+  | ["co", n], [_, snap] => n.toNat?.map (·, snap)
+  | [_, n, _], [_, snap] => n.toNat?.map (·, snap)
+  | _, _ => none
 
 def judge (conf : Conf) (evs obs : List String) : List String := Id.run do
   let mut js : JState := {}
@@ -389,6 +441,13 @@ def judge (conf : Conf) (evs obs : List String) : List String := Id.run do
     if ob.startsWith "PANIC" then
       js := { js with bad := s!"panic:{e.headD ""}" :: js.bad }
       continue
+    if js.t0.isNone then js := { js with t0 := (o.headD "").toInt? }
+    match snapOf e o with
+    | some (n, snap) =>
+      match parseSnap snap with
+      | some sn => js := { js with lastStore := (n, sn.store) :: js.lastStore.filter (·.1 != n) }
+      | none => pure ()
+    | none => pure ()
     -- no node ever marks a key deleted that nobody deleted
     if !js.forged then
       for part in o do
@@ -404,6 +463,7 @@ def judge (conf : Conf) (evs obs : List String) : List String := Id.run do
           | some en => js := { js with acks := (n, key, en.val) :: js.acks }
           | none => pure ()
         | _, _ => js := { js with bad := "unparsable-observation" :: js.bad }
+    | ["inj", _, _], _ => js := { js with forged := true, injected := true }
     | ["x", _, _, _, _], [_, cls, _, before, after] =>
       if cls != "ok" ∧ before != after then js := { js with bad := s!"malformed-message-changed-state:{cls}" :: js.bad }
       -- a corrupted message that still decodes is indistinguishable from an authentic one: the
@@ -423,7 +483,13 @@ def judge (conf : Conf) (evs obs : List String) : List String := Id.run do
       if ps.any (fun p => p.startsWith "ok:=") then js := { js with forged := true }
     | ["rs", n], _ =>
       match n.toNat? with
-      | some n => js := { js with acks := js.acks.filter (·.1 != n), wreg := js.wreg.filter (·.2.1 != n) }
+      | some n =>
+        -- an acknowledged CAS survives the restart of its node if another node's store already contains it
+        let moved := js.acks.filterMap fun (a, key, v) =>
+          if a != n then some (a, key, v) else
+          (js.lastStore.find? fun (m, st) => m != n && (match getE st key with | some en => dominated v en.val | none => false)).map
+            fun (m, _) => (m, key, v)
+        js := { js with acks := moved, wreg := js.wreg.filter (·.2.1 != n), lastStore := js.lastStore.filter (·.1 != n) }
       | none => pure ()
     | [w, n, key], [_, snap] =>
       if w == "w" ∨ w == "wp" then
@@ -450,7 +516,10 @@ def judge (conf : Conf) (evs obs : List String) : List String := Id.run do
               if rest.any fun s => viewOf s != v0 then
                 js := { js with bad := "nodes-differ-after-sync" :: js.bad }
           -- (2) every acknowledged CAS is contained in every node's value
-          if !conf.gc ∧ !js.forged then
+          -- applies while no tombstone can have reached the retention: retention off, or the whole history
+          -- (plus the oldest timestamp a workload writes, 12 s) is shorter than it
+          let elapsed : Int := ((o.headD "").toInt?.getD 0) - js.t0.getD 0
+          if !conf.gc ∧ !js.forged ∧ (conf.lit == 0 ∨ elapsed + 12 < conf.lit) then
             for (_, key, v) in js.acks.filter fun (_, key, _) => !delKeys.contains key do
               for s in sn do
                 match getE s.store key with
@@ -458,7 +527,9 @@ def judge (conf : Conf) (evs obs : List String) : List String := Id.run do
                 | none => js := { js with bad := s!"acked-cas-not-visible:{key}" :: js.bad }
           -- (3) every registered watcher has been called with the final value of every key that
           --     changed after its registration
-          for (wid, n, isP, wkey, vers) in js.wreg do
+          -- (silent after an ill-formed injected value: a CAS may re-order its stored token lists through
+          --  Clone's shared slices without any version change - see `aliasedCas`)
+          for (wid, n, isP, wkey, vers) in (if js.injected then [] else js.wreg) do
             match sn[n]? with
             | none => pure ()
             | some s =>
